@@ -552,6 +552,7 @@ def run(ctx):
                  "QUBOContainer.export: choice by as_ising, f-string lines, the two loops with generated bodies, the written text; "
                  "and for load_tools.load_matrix in the exception monad: the line loop with its four branches, IndexError / ValueError "
                  "of subscripts and int()/float(), the assertion, the shape; combinators in coq/theories/PyReport.v, PyExport.v)")
+    from props import pysem; pysem.run(ctx, pysem.GROUPS_FOR.get(ctx.pid, ()))
     rng = ctx.rng
     n_random = 170 if ctx.quick else 3000
     cases = gen_cases(rng, n_random)
